@@ -31,7 +31,7 @@ fn q_sel(d: Dialect, s: &mut SelectStatement) -> String {
     s.build_collect_any(qb(d), &mut out)
 }
 
-pub const POSITIONS: [&str; 62] = [
+pub const POSITIONS: [&str; 63] = [
     "select.from.table",
     "select.from.schema_of_schema.table",
     "select.from.table_of_schema.table",
@@ -94,6 +94,7 @@ pub const POSITIONS: [&str; 62] = [
     "pg.type.drop_schema_name",
     "pg.as_enum_type",
     "pg.as_enum_array_type",
+    "func.cast_as_quoted_type",
 ];
 
 /// Render with identifier `v` in position `p`. None = not applicable for this backend.
@@ -353,6 +354,11 @@ fn render(p: &str, d: Dialect, v: &str) -> Option<String> {
                 return None;
             }
             q_sel(d, Query::select().expr(Expr::val("x").as_enum(a(&format!("{v}[]")))))
+        }
+        "func.cast_as_quoted_type" => {
+            // the type name is quoted with the quote handed to the function: the backend's own
+            let q = qb(d).quote();
+            q_sel(d, Query::select().expr(Func::cast_as_quoted(Expr::val("x"), a(v), q)))
         }
         _ => unreachable!("unknown position {p}"),
     })
